@@ -26,3 +26,35 @@ func Make(a int, b string, c float64) hidden { return hidden{a, b, c} }
 func Fields(h hidden) (int, string, float64) { return h.A, h.B, h.c }
 
 func FieldsP(h *hidden) (int, string, float64) { return h.A, h.B, h.c }
+
+// deep is unnameable too, and so are the types of its fields: a stand-in has to copy them as well
+type level int
+
+type inner struct {
+	X int
+	Y string
+}
+
+type deep struct {
+	L  level
+	In inner
+	P  *inner
+	Fs []inner
+}
+
+//go:noinline
+func GetDeep() deep { return deep{L: -1} }
+
+//go:noinline
+func GetDeepP() *deep { return &deep{L: -2} }
+
+//go:noinline
+func TakeDeep(d deep) int { return -5 }
+
+func DeepFields(d deep) (int, int, string, int) {
+	px := 0
+	if d.P != nil {
+		px = d.P.X
+	}
+	return int(d.L), d.In.X, d.In.Y, px + len(d.Fs)
+}
